@@ -190,7 +190,7 @@ pub fn parse_ihdr_chunk(
 ) -> PngResult<IhdrData> {
     // This eliminates bounds checks for the rest of the function
     let interlaced = byte_data.get(12).copied().ok_or(PngError::TruncatedData)?;
-    Ok(IhdrData {
+    let ihdr = IhdrData {
         color_type: match byte_data[9] {
             0 => ColorType::Grayscale {
                 transparent_shade: trns_data
@@ -215,7 +215,23 @@ pub fn parse_ihdr_chunk(
         width: read_be_u32(&byte_data[0..4]),
         height: read_be_u32(&byte_data[4..8]),
         interlaced: interlaced.try_into()?,
-    })
+    };
+    if ihdr.width == 0 || ihdr.height == 0 {
+        return Err(PngError::new("Image width and height must not be zero"));
+    }
+    // Only certain bit depths are allowed for each color type
+    let valid_depth = match ihdr.color_type {
+        ColorType::Grayscale { .. } => true,
+        ColorType::Indexed { .. } => ihdr.bit_depth <= BitDepth::Eight,
+        _ => ihdr.bit_depth >= BitDepth::Eight,
+    };
+    if !valid_depth {
+        return Err(PngError::InvalidDepthForType(
+            ihdr.bit_depth,
+            ihdr.color_type,
+        ));
+    }
+    Ok(ihdr)
 }
 
 /// Construct an RGBA palette from the raw palette and transparency data
